@@ -30,6 +30,7 @@ func c03(c *Ctx) {
 	c03R6(c, "R6")
 	c03R7(c, "R7")
 	sState(c, "R8/S-STATE")
+	c10R5(c, "R9/C10.R5")
 }
 
 // truncationTracks are the per-iteration tracks of appendEntries' entry loop.
